@@ -324,3 +324,4 @@ pub fn c13_san(kinds: &[u8], turn: u8, optional: bool) {
     }
     core::mem::forget(r);
 }
+
